@@ -237,6 +237,25 @@ theorem find_covering (roas : List Roa) (a : Ann) :
   · rintro ⟨r, ⟨hr, _⟩, hm⟩; exact ⟨r, hr, hm⟩
   · rintro ⟨r, hr, hm⟩; exact ⟨r, ⟨hr, ((matches_iff r a).mp hm).2.1⟩, hm⟩
 
+theorem find_none_iff (roas : List Roa) (a : Ann) :
+    (covering roas a.pfx).find? (fun r => r.matches a) = none ↔
+      ∀ r ∈ roas, r.matches a = false := by
+  have h := find_covering roas a
+  constructor
+  · intro hn r hr
+    rw [hn] at h
+    have : roas.any (fun r => r.matches a) = false := by rw [← h]; rfl
+    rw [List.any_eq_false] at this
+    simpa using this r hr
+  · intro hall
+    have : roas.any (fun r => r.matches a) = false := by
+      rw [List.any_eq_false]; intro r hr; simp [hall r hr]
+    rw [this] at h
+    cases hf : (covering roas a.pfx).find? (fun r => r.matches a) with
+    | none => rfl
+    | some r => rw [hf] at h; cases h
+
+
 /-- The verdict of `validate` in closed form. -/
 theorem validate_validity (roas : List Roa) (a : Ann) :
     (validate roas a).validity =
@@ -537,5 +556,46 @@ theorem eq_of_nodup_map {α β} (f : α → β) (l : List α) (h : (l.map f).Nod
     · rcases List.mem_cons.mp hb with rfl | hb'
       · exact absurd hf (h.1 a ha')
       · exact ih h.2 ha' hb'
+
+theorem toEntry_subject (v : Validated) : v.toEntry.subject = .inr v.ann := by
+  unfold Validated.toEntry; split <;> rfl
+
+theorem toEntry_authorizes (v : Validated) : v.toEntry.authorizes = [] := by
+  unfold Validated.toEntry; split <;> rfl
+
+/-- The shape of a report when announcement data is loaded. -/
+theorem analyse_shape (i : AnalyseInput) (s : List Ann) (entries : List Entry)
+    (hseen : i.seen = some s) (h : analyse i = some entries) :
+    ∃ roaEntries,
+      allSome (i.roasHeld.map (fun r => categoriseRoa r i.validated i.roasHeld)) = some roaEntries ∧
+      entries = i.roasNotHeld.map (fun r => ({ subject := .inl r, state := .roaNotHeld } : Entry)) ++
+        roaEntries ++ i.validated.map (·.toEntry) := by
+  unfold analyse at h
+  rw [hseen] at h
+  simp only at h
+  split at h
+  · cases h
+  · rename_i roaEntries hre
+    simp only [Option.some.injEq] at h
+    exact ⟨roaEntries, hre, h.symm⟩
+
+/-- An entry of the report about a ROA, other than "not held", is the categorisation of a
+held ROA. -/
+theorem roa_entry_origin (i : AnalyseInput) (s : List Ann) (entries : List Entry)
+    (hseen : i.seen = some s) (h : analyse i = some entries) (e : Entry) (he : e ∈ entries)
+    (hne : e.state ≠ .roaNotHeld ∨ e.authorizes ≠ []) (hsub : ∃ rc, e.subject = .inl rc) :
+    ∃ rc ∈ i.roasHeld, categoriseRoa rc i.validated i.roasHeld = some e := by
+  obtain ⟨roaEntries, hre, rfl⟩ := analyse_shape i s entries hseen h
+  simp only [List.mem_append, List.mem_map] at he
+  rcases he with (⟨r, _, rfl⟩ | he) | ⟨v, _, rfl⟩
+  · rcases hne with hne | hne <;> exact absurd rfl hne
+  · have := allSome_eq_some hre
+    have hm : some e ∈ roaEntries.map some := List.mem_map.mpr ⟨e, he, rfl⟩
+    rw [← this] at hm
+    obtain ⟨rc, hrc, heq⟩ := List.mem_map.mp hm
+    exact ⟨rc, hrc, heq⟩
+  · obtain ⟨rc, hrc⟩ := hsub
+    rw [toEntry_subject] at hrc; cases hrc
+
 
 end KM.Bgp
